@@ -89,6 +89,34 @@ CHECKS = {
         note=TB_COMMON + "Byte-identity across supply orders follows from the sorted re-insertion when type names are distinct (computed for the shipped table); the permutation-invariance lemma of the sort is not mechanised yet, order independence is established by enumeration on the implementation.",
         technique="Coq proof (generated export = sorted copy) + parse-back oracle and byte comparison across supply orders",
     ),
+    "C17": dict(
+        text=("Coq proof over the Spark contains_ops and registration list REGENERATED from backends/spark/types/*.py, the generated engine and Spark traversal and the generated "
+              "relation table: for EVERY Spark SQL type expression (induction-free case analysis over the type language incl. arbitrarily nested array/map/struct), column name and "
+              "nullable flag, StandardSet, StandardSet+Date and CompleteSet type a column by the documented map (nearest included ancestor otherwise), from the schema alone - rows are "
+              "not an input of the model; the frame handed back is the input frame. The pyspark class hierarchy is measured from the installed library. A local Spark session compares the "
+              "model with the implementation for every constructor x typeset and checks rows/nullability/position/name independence and the job counter."),
+        ref="DESIGN.md section 6 (C17)",
+        note=TB_COMMON + "Measured (not verified): isinstance table of pyspark DataType classes. Hand model: relations/dispatch for Spark frames (props/C17.v spark_relations). Partial: 'no Spark job' is only observable dynamically (status tracker). Known finding F17b (dotted column names).",
+        technique="Coq proof by case analysis over a Spark type language on generated contains_ops + engine; Spark-session differential test and property oracle",
+    ),
+    "C15": dict(
+        text=("Coq proof for the reference walk (which the generated engine is proved to compute): if B's walk is exclusive (exactly the followed relation accepts at every node, guards leave "
+              "the state alone) and A's successor lists are B's filtered to A's types (induced subgraph), then A's walk follows B's path exactly while it stays in A and stops where B "
+              "leaves A - detect_A is the deepest type of B's detection path in A, infer_A's path is a prefix of infer_B's. On the implementation the same statement is checked for "
+              "Standard<=Geometry<=Complete and random parent-closed pairs on all shared streams; inputs in recorded C02 overlap classes are excluded by the same classifiers."),
+        ref="DESIGN.md section 6 (C15)",
+        note=TB_COMMON + "The link 'graph of a sub-typeset = induced subgraph of the larger one' is established by C14's exhaustive construction check, not by a Coq theorem yet.",
+        technique="Coq proof by induction over exclusive walks (prefix/refinement theorem); typeset-pair oracle on the implementation",
+    ),
+    "C02": dict(
+        text=("Coq proof for the reference walk: under exclusivity along the walk (exactly one outgoing relation accepts, guards do not touch the state) every permutation of the successor "
+              "enumeration - the model of set/graph insertion order - yields the same data, path and state; a two-successor counterexample shows the hypothesis is needed. Exclusivity of "
+              "the shipped relations is decided on the implementation: every successor's is_relation is evaluated at every node of every admissible branch for all shared streams plus "
+              "cross-parser string columns, and CompleteSet is rebuilt under permuted supply orders. Five inherent overlaps at String are recorded as known findings with narrow classifiers."),
+        ref="DESIGN.md section 6 (C02)",
+        note=TB_COMMON + "Exclusivity of sibling predicates over ALL sequences is not a Coq theorem here (string parsers are oracles; the identity layer is modelled under C16); it is established by evaluation of the real guards. Known findings F02a-e, F02o.",
+        technique="Coq proof (order independence of exclusive walks under successor permutation) + exhaustive-per-node guard evaluation and permuted-order rebuilds on the implementation",
+    ),
 }
 
 
